@@ -16,6 +16,9 @@ structure Diag where
   desc : String := ""
   text : String := ""
   alts : List (Range × FileId) := []
+  /-- node the diagnostic originates from when that is not the located node (the call site of a
+      use-after-call): part of the related information, which the output channels drop -/
+  site : Option Nat := none
   deriving Repr, Inhabited
 
 def lintVariantOfCode (code : String) : Option String :=
@@ -111,7 +114,7 @@ def lintDeadValue (g : Cfg) : List Diag :=
     match callsToFromCfg g cn with
     | some (f, _) =>
       let out := (RegSet.diff callerSavedSet (funcReturns g f)) &&& cn.liveOut
-      acc ++ usageDiags "InvalidUseAfterCall" g i out
+      acc ++ (usageDiags "InvalidUseAfterCall" g i out).map fun d => { d with site := some i }
     | none =>
       match cn.node.writesTo with
       | some d =>
@@ -225,6 +228,7 @@ def runLints (g : Cfg) : List Diag :=
 def Diag.trace (tag : String) (d : Diag) : String :=
   let alts := if d.alts.isEmpty then "" else
     " alts=[" ++ ",".intercalate (d.alts.map fun a => locStr a.1 a.2) ++ "]"
-  s!"{tag} code={d.code} sev={d.sev} title={hexOfString d.title} at={locStr d.range d.file} desc={hexOfString d.desc} text={hexOfString d.text}{alts}"
+  let site := match d.site with | some i => s!" site={i}" | none => ""
+  s!"{tag} code={d.code} sev={d.sev} title={hexOfString d.title} at={locStr d.range d.file} desc={hexOfString d.desc} text={hexOfString d.text}{site}{alts}"
 
 end Rva
